@@ -30,6 +30,13 @@ ASSUMPTIONS = [
     "MiniProto fragment: options other than json_name, default (no float defaults), allow_alias, message_set_wire_format are outside; editions features are outside",
 ]
 
+# The mirror follows the code as it is: linker/validate.go validateExtension looks up the position of the verification
+# option in the file of the EXTENSION, so an undeclared extension whose extendee is in another file makes the compile of
+# the file panic (recovered by the compiler, nothing reported; the verdict is still "reject" as with protoc).
+# Proposed repair: fixes/C01-extdecl-missing-span-file.diff.  Set to True (or VERIF_C01_EXTDECL_REPAIRED=1) once applied.
+EXTDECL_REPAIRED = os.environ.get("VERIF_C01_EXTDECL_REPAIRED", "0") == "1"
+SUF = "_repaired" if EXTDECL_REPAIRED else ""
+
 # documented divergences are excused by Model/SpecOracle.v excused; they are counted, never reported
 
 
@@ -43,7 +50,7 @@ def key_for(label, out):
 def evaluate(ctx, cases, tag):
     """cases: [(label, asts, texts, out)] -> runs mirror + oracle in Coq, records outcomes"""
     terms = [G.c01_term(files, out) for _, files, _, out in cases]
-    bad, err = coq_eval_mismatches("cases_C01_" + tag, G.HEADER, terms, "c01_full_chk", shard_size=ctx.budget(max(8, len(terms) // (2 * NCPU) + 1), 60))
+    bad, err = coq_eval_mismatches("cases_C01_" + tag, G.HEADER, terms, "c01_full_chk" + SUF, shard_size=ctx.budget(max(8, len(terms) // (2 * NCPU) + 1), 60))
     if err:
         raise RuntimeError(err)
     if not bad:
@@ -51,7 +58,7 @@ def evaluate(ctx, cases, tag):
     sub = [terms[i] for i in bad]
     n = len(sub)
     probes = ["P1Model (%s)" % t for t in sub] + ["P1Spec (%s)" % t for t in sub] + ["P1Exc (%s)" % t for t in sub]
-    pm, e1 = coq_eval_mismatches("cases_C01_" + tag + "_p", G.HEADER, probes, "c01_probe_chk", shard_size=max(4, (3 * n) // NCPU + 1))
+    pm, e1 = coq_eval_mismatches("cases_C01_" + tag + "_p", G.HEADER, probes, "c01_probe_chk" + SUF, shard_size=max(4, (3 * n) // NCPU + 1))
     if e1:
         raise RuntimeError(e1)
     m_mis = set(i for i in pm if i < n)
@@ -77,6 +84,7 @@ def evaluate(ctx, cases, tag):
 def run(ctx):
     rng = ctx.rng
     cases = []
+    panics = []
     stats = {"syntax-error": 0, "outside-fragment": 0}
 
     # 1. corpus of boundary cases (text) -> read back through the repository's parser
@@ -89,7 +97,7 @@ def run(ctx):
             continue
         cc.append(("corpus:" + label, asts, fs))
     # 2. generated programs and single-rule mutants
-    progs = G.gen_cases(rng, ctx.budget(32, 1500), ctx.budget(5, 6), small=(ctx.tier != "thorough"))
+    progs = G.gen_cases(rng, ctx.budget(32, 1500), ctx.budget(5, 6), small=(ctx.tier != "thorough"), extended=True)
     texts = G.render_sets(rng, progs)
     gc = [(label, files, t) for (label, files), t in zip(progs, texts)]
     allc = cc + gc
@@ -102,6 +110,8 @@ def run(ctx):
             stats["syntax-error"] += 1
             ctx.count(("syn", label, repr(sorted(t.items()))), False, "grammar-rejects")
             continue
+        if str(o.get("err", "")).startswith("panic handling"):
+            panics.append({"label": label, "files": t, "error": o["err"]})
         if o["ok"] != o.get("ok_default", o["ok"]):
             ctx.corr_break("miniproto:reporter", {"label": label, "files": t}, {"note": "verdict depends on the reporter"})
         cls = "accept" if o["ok"] else (o["errs"][0]["cls"] if o["errs"] else "reject-without-report")
@@ -114,6 +124,10 @@ def run(ctx):
                 "distinct = distinct canonical source text; every evaluated case is non-trivial (compiled by the real compiler, verdict and first error "
                 "class per file compared with the mirror, verdict compared with the protoc specification)" % (len(cc), len(G.Mutator(rng).names())))
     ctx.extra["outside_model"] = stats
+    ctx.extra["compiler_panics"] = {"count": len(panics), "first": panics[:1],
+                                    "note": "recovered panics of the compiler (verdict reject, no diagnostic); modelled as they are (ECompilerPanic)"}
+    if panics:
+        ctx.notes.append("the compiler panicked on %d file sets (extension without declaration, extendee in another file); see fixes/C01-extdecl-missing-span-file.diff" % len(panics))
     ctx.extra["documented_divergences_seen"] = nexc
 
     ctx.extra["rule_families"] = {
@@ -125,6 +139,9 @@ def run(ctx):
         "symbol uniqueness incl. enum-value scoping and packages": "oracle only (flat model of linker/symbols.go)",
         "reference resolution": "C15 theorem (reused) + oracle for the kind checks",
         "extension numbers vs extendee ranges, duplicates, proto3 extendee whitelist, map-entry references": "oracle only",
+        "extension declarations (which range is consulted; reserved / name / type / cardinality / missing)": "theorem (C01_extension_range_lookup_iff) + oracle",
+        "well-formedness of the declarations themselves (validateExtensionDeclarations: numbers in range and unique, names and types valid, "
+        "reserved consistent, one owner per declared name)": "oracle only",
         "json_name / default pseudo-options, closed enum in implicit-presence field, enum value JSON conflicts": "oracle only",
         "F3 / F5 descriptor contents": "see C02",
     }
